@@ -220,6 +220,18 @@ let do_heap args =
        Printf.sprintf "R HL%d;%s;%s;%s" (int_of_nat o.ho_setup) calls f l)
   | _ -> "R BADREQ"
 
+(* ---- stream rsheap:  E <gf8 0|1> <k> <n> <cbmode> <api> <built 0|1> <finish 0|1> <esi> ...  -> same format as stream heap *)
+let do_rsheap args =
+  match args with
+  | gf8 :: k :: n :: cbm :: api :: built :: fin :: esis ->
+    let nat s = nat_of_int (int_of_string s) in
+    let o = rs_heap_session (gf8 = "1") (nat k) (nat n) (nat cbm) (api = "1") (built = "1") (List.map nat esis) (fin = "1") in
+    let calls = String.concat "," (List.map (fun x -> match x with None -> "STUCK" | Some v -> string_of_int (int_of_nat v)) o.rh_calls) in
+    let f = match o.rh_finish with None -> "-" | Some None -> "STUCK" | Some (Some v) -> string_of_int (int_of_nat v) in
+    let l = match o.rh_left with None -> "STUCK" | Some (a, b) -> Printf.sprintf "%d=%d" (int_of_nat a) (int_of_nat b) in
+    Printf.sprintf "R HL%d;%s;%s;%s" (int_of_nat o.rh_setup) calls f l
+  | _ -> "R BADREQ"
+
 (* ---- stream bem:  Y <m 4|8> <k> <n>  -> the generator matrix as the model of the C's construction builds it *)
 let do_bem args =
   match args with
@@ -369,6 +381,7 @@ let () =
       | "Y" :: args -> print_endline (do_bem args)
       | "A" :: args -> print_endline (do_api args)
       | "X" :: args -> print_endline (do_heap args)
+      | "E" :: args -> print_endline (do_rsheap args)
       | "U" :: size :: ws -> print_endline (match hweight_array_run (List.map z_of_string ws) (z_of_string size) with Some z -> "R " ^ string_of_z z | None -> "R UB")
       | _ -> print_endline "BADREQ"
     done
